@@ -534,9 +534,9 @@ Proof.
 Qed.
 
 Lemma inv_step var reg g st o st' r evs :
-  fixed var -> Inv st -> step var reg g st o = (st', r, evs) -> Inv st'.
+  fixed var -> plain o = true -> Inv st -> step var reg g st o = (st', r, evs) -> Inv st'.
 Proof.
-  intros HV HI. destruct o; simpl.
+  intros HV HP HI. destruct o; try discriminate HP; simpl.
   - destruct (do_create st) eqn:E. intros H; inversion H; subst. eapply inv_create; eauto.
   - destruct (do_close st id) eqn:E. intros H; inversion H; subst. eapply inv_close; eauto.
   - destruct (do_delete st id) eqn:E. intros H; inversion H; subst. eapply inv_delete; eauto.
@@ -546,10 +546,10 @@ Proof.
   - intros H. eapply inv_commit; eauto.
 Qed.
 
-Lemma inv_run var reg g ops : fixed var -> forall st, Inv st -> Inv (run var reg g st ops).
+Lemma inv_run var reg g ops : fixed var -> forallb plain ops = true -> forall st, Inv st -> Inv (run var reg g st ops).
 Proof.
-  intros HV. induction ops as [|o ops IH]; simpl; intros st HI; auto.
-  apply IH. destruct (step var reg g st o) as [[st' r] evs] eqn:E. simpl. eapply inv_step; eauto.
+  intros HV. induction ops as [|o ops IH]; simpl; intros HP st HI; auto.
+  apply andb_true_iff in HP as [HP1 HP2]. apply IH; auto. destruct (step var reg g st o) as [[st' r] evs] eqn:E. simpl. eapply inv_step; eauto.
 Qed.
 
 (* ------------------------------------------------------------------ the property lemmas *)
@@ -591,14 +591,14 @@ Qed.
 (* isolation: nothing but a successful commit changes running, startup, the startup file or the versions;
    nothing but a commit touches the routing daemon *)
 Lemma isolation var reg g st o st' r evs :
-  fixed var -> Inv st -> step var reg g st o = (st', r, evs) ->
+  fixed var -> plain o = true -> Inv st -> step var reg g st o = (st', r, evs) ->
   (persisted st' <> persisted st -> exists id f, o = OCommit id f /\ r = ROk) /\
   (frr st' <> frr st -> exists id f, o = OCommit id f).
 Proof.
-  intros HV HI H.
+  intros HV HP HI H.
   assert (Q : (persisted st' = persisted st /\ frr st' = frr st) \/ exists id f, o = OCommit id f /\
               (r <> ROk -> persisted st' = persisted st)).
-  { destruct o; simpl in H.
+  { destruct o; try discriminate HP; simpl in H.
     - left. unfold do_create in H. cbv zeta in H. destruct (lock (expire st)); inversion H; subst; split; reflexivity.
     - left. unfold do_close in H. cbv zeta in H. destruct (has_session _ _); inversion H; subst; split; reflexivity.
     - left. unfold do_delete in H. cbv zeta in H. destruct (find_session _ _); inversion H; subst; split; reflexivity.
@@ -716,10 +716,10 @@ Proof.
 Qed.
 
 Lemma inv2_step var reg g st o st' r evs :
-  fixed var -> Inv st -> Inv2 reg st -> step var reg g st o = (st', r, evs) -> Inv2 reg st'.
+  fixed var -> plain o = true -> Inv st -> Inv2 reg st -> step var reg g st o = (st', r, evs) -> Inv2 reg st'.
 Proof.
-  intros HV HI H2 H. apply inv_expire in HI as HIe. apply (inv2_expire reg) in H2 as H2e.
-  destruct o; simpl in H.
+  intros HV HP HI H2 H. apply inv_expire in HI as HIe. apply (inv2_expire reg) in H2 as H2e.
+  destruct o; try discriminate HP; simpl in H.
   - unfold do_create in H. cbv zeta in H. destruct (lock (expire st)); inversion H; subst; auto.
     intros s Hin. simpl in Hin. apply in_app_or in Hin as [Hin|[<-|[]]]; [apply H2e; auto|reflexivity].
   - unfold do_close in H. cbv zeta in H. destruct (has_session _ _); inversion H; subst; auto.
@@ -756,12 +756,13 @@ Proof.
       intros s' Hin. rewrite Hs, Hs1 in Hin. subst id. rewrite remove_single in Hin. contradiction.
 Qed.
 
-Lemma inv2_run var reg g ops : fixed var -> forall st, Inv st -> Inv2 reg st ->
+Lemma inv2_run var reg g ops : fixed var -> forallb plain ops = true -> forall st, Inv st -> Inv2 reg st ->
   Inv2 reg (run var reg g st ops).
 Proof.
-  intros HV. induction ops as [|o ops IH]; simpl; intros st HI H2; auto.
+  intros HV. induction ops as [|o ops IH]; simpl; intros HP st HI H2; auto.
+  apply andb_true_iff in HP as [HP1 HP2].
   destruct (step var reg g st o) as [[st' r] evs] eqn:E. simpl.
-  apply IH; [eapply inv_step; eauto | eapply inv2_step; eauto].
+  apply IH; [auto | eapply inv_step; eauto | eapply inv2_step; eauto].
 Qed.
 Lemma inv2_init reg r shared : Inv2 reg (init_state_gen r shared).
 Proof. intros s []. Qed.
@@ -798,3 +799,29 @@ Proof.
   rewrite I2. eapply P; [| |exact Hin|congruence]; reflexivity.
 Qed.
 
+
+(* ------------------------------------------------------------------ contracts made explicit (round 3) *)
+(* whatever happened before — failed commits, LoadConfig, start-up — a Commit that returns ok has run the
+   pre-commit validation on the candidate it publishes *)
+Lemma commit_validates var reg g st id f st' evs :
+  do_commit var reg g st id f = (st', ROk, evs) ->
+  exists s, find_session (sessions (expire st)) id = Some s /\ precommit_ok g (s_cand s) = true /\
+            running st' = s_cand s.
+Proof.
+  unfold do_commit.
+  destruct (find_session (sessions (expire st)) id) as [s0|] eqn:Ef; [|intros H; inversion H].
+  destruct (sort_changes reg (running (expire st)) (s_changes (touch s0))) as [e|sorted].
+  { destruct e; intros H; inversion H. }
+  destruct sorted as [|c0 sorted]; [intros H; inversion H|].
+  destruct (precommit_ok g (s_cand (touch s0))) eqn:EP; [|intros H; inversion H].
+  cbn [negb].
+  destruct (apply_loop reg (c0 :: sorted) 0 (f_apply f) [] [] false) as [[[applied outcome] evs0] need].
+  destruct outcome as [|[|[|k]]]; try (intros H; inversion H; fail).
+  all: cbv zeta.
+  all: destruct (need && f_test f); [intros H; inversion H|].
+  all: destruct (need && negb (Nat.eqb (f_reload f) 0)); [destruct (v_frr_restore var); intros H; inversion H|].
+  all: destruct (negb (v_persist_first var));
+    (destruct (f_startup f); [intros H; inversion H|]);
+    (destruct (version_changes reg (s_changes (touch s0))); [|try (destruct (f_version f))]);
+    intros H; inversion H; subst; exists s0; auto.
+Qed.
